@@ -910,14 +910,18 @@ def replay(ctx, rp):
 
 MANIFEST = {
     "text": "Lean theorems about an executable model of solve_cnf for every CNF, fuel and set-iteration order (sat_sound, unsat_sound, "
-            "trace_valid, proofs_valid, verdict_correct, no_crash), a verified certificate checker (checkTrace_sound, checkProofs_sound) that is run on every "
-            "'unsatisfiable' answer of the real solver, and tseitin_equisat for a model of the Tseitin CNF whose clause groups are the encode_* rules "
-            "regenerated from library/sat.json on each run; models tied to prover/sat.py and prover/tseitin.py by differential runs on generated "
-            "inputs; verdicts, assignments and traces of the real solver judged by brute force and an independent trace replay. Termination is not "
-            "proved (fuel in the model; searched for with time limits on the implementation).",
+            "trace_valid, proofs_valid, verdict_correct, no_crash, unit_propagate_fuel_suffices), a verified certificate checker "
+            "(checkTrace_sound, checkProofs_sound) that is run on every 'unsatisfiable' answer of the real solver, and for a model of "
+            "tseitin.encode with atoms and auxiliary variables in one name space, the rewriting passes and the fresh-name choice: "
+            "tseitin_equisat, tseitin_succeeds, tseitin_names_fresh (and tseitin_name_clash_counterexample for the naming before the fix); "
+            "its clause groups are the encode_* rules regenerated from library/sat.json on each run. Models tied to prover/sat.py and "
+            "prover/tseitin.py by differential runs on generated inputs; verdicts, assignments and traces of the real solver judged by brute "
+            "force and an independent trace replay. Termination is not proved (fuel in the model; searched for with time limits on the implementation).",
     "note": "Trusted: Lean kernel, propext/Classical.choice/Quot.sound, the harness generators and the recording of Python set orders, the "
             "sat.json translator. That tseitin.encode's result is a checker-accepted theorem is judged by the real checker on generated formulas "
-            "(not proved); its CNF is compared with the model's.",
+            "(not proved); its CNF is compared with the model's. tseitin_succeeds is for subterm orders that pass the model's orderOK check "
+            "(the real order always did); that the model's own default order passes it is only evaluated, not proved. Needs the /repo fixes "
+            "fixes/C15-2.patch and fixes/C15-3.patch: on a tree without them the check reports the name-clash and true/false findings.",
     "design_ref": "DESIGN.md 4/C15",
 }
 FINDINGS = [
